@@ -492,13 +492,172 @@ def stored_merge_with_meta(ctx, n):
             ctx.count("stored_meta:" + res)
 
 
+# File names that are ordinary on POSIX (one path component: non-empty, no "/", no NUL) but mean something under some OTHER
+# naming convention: a foreign separator, a drive, an escape, a glob, a different normal form or letter case, padding.
+# A listing names entries by posix-joined components and by nothing else: none of these may be re-read as another key.
+ODD_NAMES = [
+    "logs\\run1", "C:\\data\\x.csv", "back\\", "\\lead", "a\\\\b", "d\\c", "d\\e\\f",
+    "a:b", "C:", "x y", " lead", "trail ", "trail.", "-rf", "tab\there", "new\nline", "cr\rlf", 'q"uote', "it's",
+    "%2F", "a%5Cb", "a%2Fb", "*", "?", "[x]", "~", "#h", "$HOME", "{a,b}", "a|b", "a;b", "a&b", "...", "..a", ".hidden",
+    "\u00e9", "e\u0301", "\u00c9", "README", "readme", "ReadMe", "\u2215", "\uff0f", "\uff3c", "a\u2215b", "\U0001f600",
+    "\u200b", "a\u00a0b", "\\u0041", "\\n", "\\", "\\\\", "n" * 200,
+]
+
+
+def _lookalikes(name):
+    """keys a reader applying a foreign convention to `name` would produce instead of (name,)"""
+    import unicodedata
+    from urllib.parse import unquote
+
+    out = []
+    for sep in ("\\", ":", "\u2215", "\uff0f", "\uff3c", "%2F", "%5C"):
+        if sep in name:
+            out.append(tuple(name.split(sep)))
+            out.append((name.replace(sep, "_"),))
+    for f in (str.casefold, str.upper, str.strip, lambda s: s.rstrip(". "), unquote,
+              lambda s: unicodedata.normalize("NFC", s), lambda s: unicodedata.normalize("NFD", s),
+              lambda s: unicodedata.normalize("NFKC", s)):
+        out.append((f(name),))
+    return [k for k in out if k != (name,) and all(c and "/" not in c and "\0" not in c and c not in (".", "..") for c in k)]
+
+
+def _odd_universe(rng):
+    """a key universe of odd names (at top level and nested, as file and as directory names), some of them next to the key
+    a foreign reading would confuse them with; no key is a prefix of another (a name is a file or a directory, not both)"""
+    keys = []
+
+    def add(k):
+        for q in keys:
+            m = min(len(q), len(k))
+            if q[:m] == k[:m]:
+                return
+        keys.append(k)
+
+    for name in rng.sample(ODD_NAMES, rng.randint(3, 5)):
+        r = rng.random()
+        k = (name,) if r < 0.6 else (("d", name) if r < 0.8 else (name, "f"))
+        add(k)
+        if rng.random() < 0.5:
+            alts = _lookalikes(name)
+            if alts:
+                alt = rng.choice(alts)
+                add(k[:-1] + alt if k[-1] == name else alt + k[1:])
+    add(("plain",))
+    return keys
+
+
+def _listing_bytes(d):
+    """the serialised listing of {key: md5}, written independently of Tree.as_bytes (JSON list sorted by relpath)"""
+    lst = sorted(({"md5": v, "relpath": "/".join(k)} for k, v in d.items()), key=lambda e: e["relpath"])
+    return json.dumps(lst, sort_keys=True).encode("utf-8")
+
+
+def _store_listing(odb, d, by):
+    """store the listing {key: md5}: through Tree.add/digest/odb.add ("tree") or as bytes written straight into the store
+    ("hand", e.g. an object pulled from a remote); returns its HashInfo"""
+    import os
+
+    from dvc_data.hashfile.hash_info import HashInfo
+
+    if by == "tree":
+        return _store(odb, {k: HashInfo("md5", v) for k, v in d.items()}).hash_info
+    body = _listing_bytes(d)
+    oid = hashlib.md5(body).hexdigest() + ".dir"
+    path = odb.oid_to_path(oid)
+    if not os.path.exists(path):
+        os.makedirs(os.path.dirname(path), exist_ok=True)
+        with open(path, "wb") as f:
+            f.write(body)
+    return HashInfo("md5", oid)
+
+
+def odd_names_case(ctx, odb, da, do, dt, al, how, by, anc="stored"):
+    """real `merge()` (both argument orders) of stored listings whose entries have odd file names.  da/do/dt: {key: md5} as
+    the harness wrote them - the reference is computed on these, never on what the library read back; results are compared
+    key by key as component tuples (so `a\\b` and `a/b` are different entries)."""
+    from dvc_data.hashfile.tree import MergeError, merge
+
+    def show(d):
+        return sorted([list(k), v] for k, v in d.items())
+
+    case = {"odd_names": {"by": by, "ancestor": anc}, "a": show(da), "o": show(do), "t": show(dt), "allowed": al}
+    if how != "canonical":
+        case["spell"] = how
+    ctx.case(case, nontrivial=bool(da != do and da != dt))
+    ia, io, it = (_store_listing(odb, d, by) for d in (da, do, dt))
+    if anc == "none":  # no common ancestor: the ancestor IS the empty listing
+        assert not da
+        ia = None
+    exp, conflicts = three_way(da, do, dt)
+    body = _listing_bytes(exp)
+    oid = hashlib.md5(body).hexdigest() + ".dir"
+    for order, (x, y) in (("ours,theirs", (io, it)), ("theirs,ours", (it, io))):
+        kind, res = safe_call(lambda: merge(odb, ia, x, y, allowed=spell(al, how)),
+                              expected=(MergeError,))
+        if kind != "ok":
+            ctx.oracle(res == "MergeError", case, {"impl": res, "order": order, "why": "unexpected exception"})
+            ctx.count("odd_names:" + res)
+            continue
+        got = {k: (v[1].value if v[1] is not None else None) for k, v in res.as_dict().items()}
+        _k, stored_bytes = safe_call(lambda: res.fs.cat_file(res.path))
+        ok = not conflicts and got == exp and res.oid == oid and res.hash_info.value == oid and stored_bytes == body
+        detail = {"why": "merge of listings with odd file names is not the three-way merge of the listings as written (or not under its canonical id)",
+                  "order": order, "impl": show(got), "three_way": show(exp), "conflicts": [list(c) for c in conflicts],
+                  "lost": sorted(list(k) for k in set(exp) - set(got)), "unjustified": sorted(list(k) for k in set(got) - set(exp)),
+                  "overridden": sorted(list(k) for k in set(got) & set(exp) if got[k] != exp[k]),
+                  "impl_oid": res.oid, "canonical_oid": oid, "object_bytes_match_listing": stored_bytes == body}
+        ctx.oracle(ok, case, detail)
+        ctx.oracle(_within(da, do, dt, al), case,
+                   {"why": "policy (spelled %s: %r) accepted a merge in which a side did more than the allowed operations" % (how, spell(al, how)),
+                    "order": order, "ours_did": sorted(_ops(da, do)), "theirs_did": sorted(_ops(da, dt)), "allowed": al or ["add"]})
+        ctx.count("odd_names:ok")
+
+
+def stored_merge_odd_names(ctx, n):
+    """listings whose entries are named by ODD_NAMES (and their look-alike keys), stored through Tree or written by hand"""
+    rng = ctx.rng
+    odb = _new_odb(ctx)
+
+    def rv():
+        return hashlib.md5(rng.choice(["1", "2", "3"]).encode()).hexdigest()
+
+    def derive(keys, base, p_change, p_remove, p_add):
+        d = dict(base)
+        for k in keys:
+            r = rng.random()
+            if k in d:
+                if r < p_change:
+                    d[k] = rv()
+                elif r < p_change + p_remove:
+                    del d[k]
+            elif r < p_add:
+                d[k] = rv()
+        return d
+
+    for _ in range(n):
+        keys = _odd_universe(rng)
+        base = {k: rv() for k in keys if rng.random() < 0.5}
+        # per-case profile: histories that only add (what the default policy admits) / also remove / also change
+        pc, pr = rng.choice([0.0, 0.0, 0.25]), rng.choice([0.0, 0.0, 0.2])
+        od, td = derive(keys, base, pc, pr, 0.5), derive(keys, base, pc, pr, 0.5)
+        by = rng.choice(["tree", "hand"])
+        ctx.count("odd_names:written_by_" + by)
+        if any("\\" in c for d in (base, od, td) for k in d for c in k):
+            ctx.count("odd_names:with_backslash")
+        anc = "none" if not base and rng.random() < 0.5 else "stored"
+        odd_names_case(ctx, odb, base, od, td, rng.choice(POLICIES), rng.choice(SPELLINGS), by, anc)
+
+
 def run(ctx):
     ctx.rule = (
         "exhaustive: all (ancestor, ours, theirs) over 3 keys (one nested) x {absent,v1,v2} x policies through the real _merge; "
         "random: derived triples over 11 keys; in every non-exhaustive family the policy is handed over in a randomly chosen spelling (None / [] / () / list / tuple / reordered / with repeats / the default named explicitly as ['add']); "
         "spellings: triples in which both sides changed (adding, removing, changing), each under one policy in EVERY spelling and both argument orders through _merge (tied to the model) and through merge() of stored trees - "
         "a merge that is accepted must be the three-way merge and within the policy the spelling denotes (empty = default = add-only); stored: real merge() of stored trees, also on a legacy store whose listings carry per-entry metadata (metadata-only changes); stored_fault: real merge() (both argument orders) through a store in which the ancestor / ours / theirs object is missing, truncated, empty or not a listing, or with no ancestor (None): "
-        "a merge that returns must return the three-way merge of the named listings within the policy, otherwise fail with MergeError/FileNotFoundError/ObjectFormatError. non-trivial = both sides differ from the ancestor; "
+        "a merge that returns must return the three-way merge of the named listings within the policy, otherwise fail with MergeError/FileNotFoundError/ObjectFormatError; "
+        "odd_names: real merge() (both argument orders, any policy spelling, ancestor possibly None) of stored listings - written through Tree.digest or as bytes by hand - whose entries carry file names that are ordinary on POSIX "
+        "but special under another convention (backslashes, drive/colon, percent escapes, globs, control characters, padding, NFC/NFD and letter-case variants, slash look-alikes), at top level and nested, next to the key a foreign "
+        "reading would confuse them with: an accepted merge must be, key by key as component tuples, the three-way merge of the listings AS WRITTEN, within the policy, under the canonical id of that content (object bytes included). non-trivial = both sides differ from the ancestor; "
         "distinct = sha256 of the canonical case"
     )
     ctx.assumptions = ["dictdiffer treats tuples as atomic values (checked by the exhaustive tie)"]
@@ -513,6 +672,7 @@ def run(ctx):
     stored_merge(ctx, ctx.n(150, 1500))
     stored_merge_with_meta(ctx, ctx.n(200, 2000))
     stored_merge_faulty(ctx, ctx.n(200, 2000))
+    stored_merge_odd_names(ctx, ctx.n(250, 2500))
 
 
 def search(ctx):
@@ -528,7 +688,13 @@ def replay(ctx, payload):
     def d(p):
         return {tuple(k.split("/")): (None, HashInfo("md5", v)) for k, v in p}
 
-    if c.get("stored_fault"):
+    if c.get("odd_names"):
+        def dd(p):
+            return {tuple(k): v for k, v in p}
+
+        odd_names_case(ctx, _new_odb(ctx), dd(c["a"]), dd(c["o"]), dd(c["t"]), c["allowed"], c.get("spell", "canonical"),
+                       c["odd_names"]["by"], c["odd_names"]["ancestor"])
+    elif c.get("stored_fault"):
         f = c["stored_fault"]
         faulty_case(ctx, d(c["a"]), d(c["o"]), d(c["t"]), c["allowed"], f["target"], f["kind"], f["cut"], c.get("spell", "canonical"))
     elif c.get("stored"):
